@@ -197,5 +197,25 @@ def main(tier):
             if bad <= 3:
                 chk.violation("pretend-interference", "a session not involving any mocked key runs differently with the option", {"case_without": t[:4000], "with": a[:6], "without": b[:6]})
     chk.streams["non-interference"] = {"cases": len(rel), "diffs": bad, "known": 0}
+    # the option through the real command line, transaction mode WITHOUT a script argument (stdin a terminal, stdout a pipe): the listed pair of a
+    # spend whose only defect is the signature makes it succeed; a malformed list is refused
+    import cli, vlib, os
+    binary = os.path.join(vlib.build("plain"), "btcdeb")
+    listed = [(i, m[1]) for i, m in meta.items() if isinstance(m, tuple) and m[0] == "spend-listed"][: (4 if chk.tier == "quick" else 30)]
+    bycase = {re.search(r"\bid=(\S+)", c).group(1): c for c in streams["spend"]}
+    cbad = 0
+    for i, c in listed:
+        pv = bytes.fromhex(re.search(r"\bpv=(\S+)", bycase[i]).group(1)).decode()
+        for pvarg, want_ok in ((pv, True), (pv.split(":")[0], False)):
+            argv = ["--tx=" + c["spend"], "--txin=" + c["fund"], "--pretend-valid=" + pvarg]
+            r = cli.run(binary, argv, stdin_tty=True)
+            chk.evaluations += 1
+            ok = r["rc"] == 0 and (r["stdout"] or b"").strip().endswith(b"01")
+            if ok != want_ok or r["sig"]:
+                cbad += 1
+                if cbad <= 3:
+                    chk.violation("pretend-cli", "btcdeb --tx --txin --pretend-valid=%s (no script argument, stdin a terminal): %s" % ("<the spend's signature:key>" if want_ok else "<malformed list>", "not accepted" if want_ok else "accepted"),
+                                  {"stream": "cli", "case": ["cli-run"], "binary": "btcdeb", "argv": argv, "stdin_tty": True, "rc": r["rc"], "stdout": (r["stdout"] or b"").decode("latin1")[-300:], "stderr": (r["stderr"] or b"").decode("latin1")[-300:]})
+    chk.streams["command-line"] = {"cases": 2 * len(listed), "diffs": cbad, "known": 0}
     chk.extra["input_distribution"] = dict(sorted(dist.items()))
     return chk.finish(RULE)
